@@ -50,8 +50,10 @@ Subterms(t, pos, d) ==
     [] t.k = "neg" -> Subterms(t.a, Append(pos, "a"), d)
     [] t.k = "if" -> Subterms(t.c, Append(pos, "c"), d) \cup Subterms(t.a, Append(pos, "a"), d) \cup Subterms(t.b, Append(pos, "b"), d)
     [] t.k = "let" -> Subterms(t.b, Append(pos, "b"), d + Len(t.defs))
-                      \cup UNION { Subterms(t.defs[j].ann, pos \o <<"ann", j>>, d + Len(t.defs)) \cup Subterms(t.defs[j].def, pos \o <<"def", j>>, d + Len(t.defs)) : j \in 1..Len(t.defs) }
+                      \cup UNION { Subterms(t.defs[j].ann, pos \o <<"ann", ToString(j)>>, d + Len(t.defs)) \cup Subterms(t.defs[j].def, pos \o <<"def", ToString(j)>>, d + Len(t.defs)) : j \in 1..Len(t.defs) }
     [] OTHER -> {}
+\* positions are sequences of strings (TLC cannot compare a string with a number): a definition index is written as text
+DefIdx(t, str) == CHOOSE j \in 1..Len(t.defs) : ToString(j) = str
 RECURSIVE Replace(_,_,_)
 Replace(t, pos, new) ==
   IF pos = <<>> THEN new ELSE
@@ -59,7 +61,7 @@ Replace(t, pos, new) ==
   CASE h = "a" -> [t EXCEPT !.a = Replace(t.a, r, new)]
     [] h = "b" -> [t EXCEPT !.b = Replace(t.b, r, new)]
     [] h = "c" -> [t EXCEPT !.c = Replace(t.c, r, new)]
-    [] h = "ann" -> [t EXCEPT !.defs[Head(r)].ann = Replace(t.defs[Head(r)].ann, Tail(r), new)]
-    [] h = "def" -> [t EXCEPT !.defs[Head(r)].def = Replace(t.defs[Head(r)].def, Tail(r), new)]
+    [] h = "ann" -> LET j == DefIdx(t, Head(r)) IN [t EXCEPT !.defs[j].ann = Replace(t.defs[j].ann, Tail(r), new)]
+    [] h = "def" -> LET j == DefIdx(t, Head(r)) IN [t EXCEPT !.defs[j].def = Replace(t.defs[j].def, Tail(r), new)]
 IsPrefixPos(p, q) == Len(p) <= Len(q) /\ SubSeq(q, 1, Len(p)) = p
 ====
